@@ -48,7 +48,8 @@ def gen_sequence(rng, maxops):
         return rng.choice([0, 0, 1, 2, 3, -1, -1, -2, -3, 5, 9, -9, rng.randint(-12, 12)])
 
     def arg():
-        return ('k', rng.choice(IDS + ['zz'])) if rng.random() < 0.4 else ('p', pos())
+        # a position may be any integer-like object: int, numpy integer, an object with __index__
+        return ('k', rng.choice(IDS + ['zz'])) if rng.random() < 0.4 else ('p', pos(), rng.choice(['int', 'int', 'np64', 'np8', 'index']))
 
     def bound():
         return None if rng.random() < 0.3 else pos()
@@ -227,6 +228,24 @@ class Impl(object):
             return reversed(xs[::-1])
         return xs
 
+    @staticmethod
+    def posarg(a):
+        """the positional / key argument in the form the case asks for"""
+        v = a[1]
+        form = a[2] if len(a) > 2 else 'int'
+        if a[0] != 'p' or form == 'int':
+            return v
+        import numpy
+        if form == 'np64':
+            return numpy.int64(v)
+        if form == 'np8':
+            return numpy.int8(v)
+
+        class Idx(object):
+            def __index__(self):
+                return v
+        return Idx()
+
     def real_apply(self, op):
         L = self.lst()
         k = op[0]
@@ -258,17 +277,17 @@ class Impl(object):
                 else:
                     setattr(self.doc, self.host, xs)
             elif k == 'insert':
-                L.insert(op[1][1], self.obj(op[2]))
+                L.insert(self.posarg(op[1]), self.obj(op[2]))
             elif k == 'setitem':
-                L[op[1][1]] = self.obj(op[2])
+                L[self.posarg(op[1])] = self.obj(op[2])
             elif k == 'setslice':
                 L[slice(op[1], op[2])] = [self.obj(o) for o in op[3]]
             elif k == 'delitem':
-                del L[op[1][1]]
+                del L[self.posarg(op[1])]
             elif k == 'delslice':
                 del L[slice(op[1], op[2])]
             elif k == 'pop':
-                r = L.pop() if op[1] is None else L.pop(op[1][1])
+                r = L.pop() if op[1] is None else L.pop(self.posarg(op[1]))
                 return 'val:%d' % r.uid
             elif k == 'removeobj':
                 L.remove(self.obj(op[1]))
@@ -446,7 +465,7 @@ def _detuple(op):
         if isinstance(x, list):
             if x and isinstance(x[0], list):
                 out.append([tuple(y) for y in x])
-            elif len(x) == 2 and x[0] in ('p', 'k'):
+            elif len(x) in (2, 3) and x[0] in ('p', 'k'):
                 out.append(tuple(x))
             elif len(x) == 2 and isinstance(x[0], int) and isinstance(x[1], str):
                 out.append(tuple(x))
